@@ -60,7 +60,7 @@ int net_connect(int fd, const struct sockaddr *sa, socklen_t len) {
     case Net::K_ACCEPT:
       of->pipe = r.rx; of->tx = r.tx; r.rx->readers++; r.tx->writers++;
       of->sock_err = 0;
-      if (nb) { of->sock_state = 1; of->sock_ready_at = k->clock + r.delay; e.ret = -1; e.err = EINPROGRESS; k->emit(e); errno = EINPROGRESS; return -1; }
+      if (nb && !(r.immediate && r.delay == 0)) { of->sock_state = 1; of->sock_ready_at = k->clock + r.delay; e.ret = -1; e.err = EINPROGRESS; k->emit(e); errno = EINPROGRESS; return -1; }
       if (r.delay > 0) k->block([] { return false; }, k->clock + r.delay, false);
       of->sock_state = 2; e.ret = 0; k->emit(e); return 0;
   }
